@@ -4,7 +4,7 @@ HDR = TOK + ["src/HttpHeader.cc", "src/HttpHeaderTools.cc", "src/http/Registered
 _U = HDR + ["src/http.cc", "src/clients/Client.cc", "src/refresh.cc", "src/MemObject.cc", "src/HttpRequest.cc", "src/HttpReply.cc", "src/http/Message.cc",
             "src/HttpBody.cc", "src/HttpHdrCc.cc", "src/http/RequestMethod.cc", "src/http/MethodType.cc", "src/http/StatusLine.cc", "src/http/StatusCode.cc",
             "src/anyp/UriScheme.cc", "src/anyp/ProtocolType.cc"]
-_e = lambda n, b, r, **kw: dict(name=n, bounds=b, reach=list(r), **dict(dict(jobs=2, max_samples=3, sample_every=17), **kw))
+_e = lambda n, b, r, **kw: dict(name=n, bounds=b, reach=list(r), **dict(dict(jobs=1, max_samples=3, sample_every=17), **kw))
 _h = ("; b = fully symbolic byte of a field value (any value except NUL, CR, LF and -- KNOWN-FINDING candidate, see assumptions -- VT, FF); status symbolic in "
       "{200,203,300,301,308,410,404}, negative_ttl symbolic 0..3600; fresh private entry received now without explicit expiry; nothing cached before")
 _K1 = ("request Cache-Control absent or any mask over the 14 recognised directives with any values; reply Cache-Control likewise, no-cache/private with or "
